@@ -149,6 +149,9 @@ def shard_hist(seed, name, members, policy, histories, kind):
         sh.evaluated(name.encode() + repr((policy, c.meta, kind)).encode(), nontrivial=len(set(c.meta)) > 1)
         if ev is None:
             continue
+        if rdh.outcap_hit(ev):
+            sh.count('abandoned_at_output_cap')
+            continue
         if rdh.budget_hit(ev):
             sh.violation('C15-no-return:' + name, 'history %s did not return within the step budget' % (list(c.meta),), c.archive)
             continue
@@ -193,6 +196,9 @@ def shard_random(seed, n, maxlen):
         ev = res.get(c.id)
         sh.evaluated(a + repr((policy, c.meta, c.kind)).encode(), nontrivial=len(c.meta) > 3)
         if ev is None:
+            continue
+        if rdh.outcap_hit(ev):
+            sh.count('abandoned_at_output_cap')
             continue
         if rdh.budget_hit(ev):
             sh.violation('C15-no-return:random', 'history %s did not return within the step budget' % (list(c.meta),), a)
